@@ -1,50 +1,117 @@
 (* C17 — entity declarations expand to a complete, mutually consistent API.
    Only statements, closed by [exact lemma], with Print Assumptions beneath.
-   Model: model/Entity.v (entityNode.run after fix d657973).  [expand e] is what the
-   walker emits (Err for an unknown default status filter / duplicate summary name),
-   [compile e] adds the reference resolution of j5convert. *)
+   Model: model/Entity.v (entityNode.run after fix d657973).  [expand e] is what the walker
+   emits (Err for an unknown default status filter / duplicate summary name), [convert e] adds
+   the reference resolution and field checks of j5convert, [compile e] adds the parser's
+   "status is required" and the link step (symbol conflicts per scope).
+   The property itself is stated against proofs/EntitySpec.v: a declarative specification
+   written from the property text / README over ANY component list (lookups by name, no builder
+   of the model), with the quantifier as the predicate [in_quantifier].
+   Part A: the property (full statement, its refutations, what holds).
+   Part B: theorems about the expansion (closedness, paths, naming, client grouping).
+   Part C: sanity lemmas (`Example`): read-backs of the model's own builders, kept because the
+           correspondence check compares exactly these shapes with the real descriptors. *)
 From Coq Require Import String List NArith Bool Permutation.
 From J5V.lib Require Import Outcome Strcase.
 From J5V.model Require Import Entity EntityClient.
 From J5V.gen Require EntityGen.
-From J5V.proofs Require Import StrcaseProofs EntityProofs EntityGenProofs EntityReadmeProofs EntityClientProofs.
+From J5V.proofs Require Import StrcaseProofs EntityProofs EntityGenProofs EntityReadmeProofs EntityClientProofs
+  EntitySpec EntitySpecProofs.
 Import ListNotations.
 Local Open Scope N_scope.
 
-(* the property at full strength, for every declaration the walker accepts *)
-Definition C17_full_statement : Prop :=
-  forall e cs, expand e = Ok cs ->
-    (* exactly the documented components, in order, named from the entity name *)
-    map skel cs = spec_skeleton e
-    (* every internal reference resolves inside the expansion or the implicit imports *)
-    (* (the user's own object references must name something: user_refs_ok) *)
-    /\ (user_refs_ok e (defined cs) = true ->
-        closed cs = true
-        /\ (fields_ok e = true -> query_params_ok e = true -> command_params_ok e = true -> compile e = Ok cs))
-    (* the same entity annotation on every part that carries one *)
-    /\ Forall (eq (snake_name e)) (psm_entities cs)
-    /\ Forall (eq (snake_name e)) (service_entities cs)
-    /\ Forall (eq (full_name e)) (topic_entities cs)
-    (* the schemas file holds Keys, Data, State, EventType, Event with the documented shapes *)
-    /\ (exists fl, msgs_of_file 0 cs =
-          [keys_msg e; data_msg e; state_msg e fl; event_type_msg e; event_msg e] ++ flat_map schema_msgs (e_schemas e)).
+(* ======================= Part A: the property ============================================ *)
 
-Theorem C17_full : C17_full_statement.
-Proof.
-  intros e cs H. destruct (expand_ok_inv e cs H) as [fl [_ [_ ->]]].
-  destruct (same_annotation e fl) as [A1 [A2 A3]].
-  repeat split; try assumption.
-  - apply expand_skeleton.
-  - now apply expand_closed.
-  - intros Hok Hq Hc. pose proof (compile_errors e _ H) as E. rewrite H0, Hok, Hq, Hc in E. exact E.
-  - exists fl. apply main_file_messages.
-Qed.
-Print Assumptions C17_full.
+(* the property at full strength: every declaration in the quantifier compiles, and what it
+   compiles to satisfies every clause of the specification (EntitySpec.C17_spec: the schemas
+   and their shapes, the event oneof bijection, required primary keys, the query service with
+   the path parameters of Get and Events, command services, topics, one entity annotation,
+   closed and linkable, State / Event are objects) *)
+Definition C17_full_statement : Prop :=
+  forall e, in_quantifier e = true -> exists cs, compile e = Ok cs /\ C17_spec e cs.
+
+(* REFUTED (the faithful model and the real compiler agree on each witness; KNOWN_FINDINGS.txt):
+   a primary key named page or query is inside the quantifier and its expansion does not link *)
+Theorem C17_full_refuted : ~ C17_full_statement.
+Proof. exact full_refuted. Qed.
+Print Assumptions C17_full_refuted.
+
+Theorem C17_reserved_key_refuted :
+  in_quantifier (mk_min "page") = true /\ compile (mk_min "page") = Err "symbol already defined"
+  /\ in_quantifier (mk_min "query") = true /\ compile (mk_min "query") = Err "symbol already defined".
+Proof. exact reserved_key_refuted. Qed.
+Print Assumptions C17_reserved_key_refuted.
+
+(* a summary field named upsert; an event named Type (its option "type" next to the proto oneof "type") *)
+Theorem C17_summary_upsert_refuted :
+  in_quantifier upsert_sample = true /\ compile upsert_sample = Err "symbol already defined".
+Proof. exact summary_upsert_refuted. Qed.
+Print Assumptions C17_summary_upsert_refuted.
+
+Theorem C17_event_type_refuted :
+  in_quantifier type_event_sample = true /\ compile type_event_sample = Err "symbol already defined".
+Proof. exact event_type_refuted. Qed.
+Print Assumptions C17_event_type_refuted.
+
+(* a key named status (metadata, data) compiles and State then has two JSON properties of that
+   name; a key named event (metadata) does the same to Event *)
+Theorem C17_state_property_clash_refuted :
+  exists cs m, in_quantifier (mk_min "status") = true /\ compile (mk_min "status") = Ok cs
+    /\ has_msg cs 0 m /\ m_name m = sp_name (mk_min "status") "State"
+    /\ json_props cs m = [bs "metadata"; bs "status"; bs "data"; bs "status"]
+    /\ ~ NoDup (json_props cs m).
+Proof. exact state_property_clash_refuted. Qed.
+Print Assumptions C17_state_property_clash_refuted.
+
+Theorem C17_event_property_clash_refuted :
+  exists cs m, in_quantifier (mk_min "event") = true /\ compile (mk_min "event") = Ok cs
+    /\ has_msg cs 0 m /\ m_name m = sp_name (mk_min "event") "Event"
+    /\ json_props cs m = [bs "metadata"; bs "event"; bs "event"].
+Proof. exact event_property_clash_refuted. Qed.
+Print Assumptions C17_event_property_clash_refuted.
+
+(* an optional array (or map) compiles to a repeated field inside a oneof: the compiler links it,
+   protodesc.NewFiles - the first step of deriving the client API - rejects the package *)
+Theorem C17_optional_repeated_refuted :
+  exists cs, in_quantifier optional_array_sample = true /\ reserved_free optional_array_sample = true
+    /\ compile optional_array_sample = Ok cs /\ client_accepts cs = false.
+Proof. exact optional_repeated_refuted. Qed.
+Print Assumptions C17_optional_repeated_refuted.
+
+(* PARTIAL: what holds.  For EVERY declaration the model compiles (in the quantifier or not)
+   the output satisfies the core specification; for declarations in the quantifier the path
+   parameters of Get and Events are exactly the primary and shard keys in declaration order
+   and Events = Get + "/events" (no clean-path hypothesis: path.Join's cleaning is part of the
+   proof); and when no key uses a property name of State / Event ([reserved_free]) these are
+   objects.  MISSING for the full statement: acceptance, i.e.
+   in_quantifier e -> reserved_free e -> exists cs, compile e = Ok cs
+   (on every run checked by the correspondence in both directions, not proved). *)
+Theorem C17_full_partial : forall e cs, compile e = Ok cs ->
+  C17_spec_core e cs
+  /\ (in_quantifier e = true -> spec_query_paths e cs)
+  /\ (in_quantifier e = true -> reserved_free e = true -> spec_objects e cs).
+Proof. exact full_partial. Qed.
+Print Assumptions C17_full_partial.
+
+(* what acceptance by [compile] means: at least one status (the parser's validation), the
+   conversion succeeded (references resolve, no optional+required field, path parameters are
+   request fields), the walker accepted (default filters are statuses, summary names distinct),
+   and no symbol is defined twice in any scope of the three files *)
+Theorem C17_compile_accepts : forall e cs, compile e = Ok cs ->
+  e_status e <> [] /\ convert e = Ok cs /\ link_ok cs = true
+  /\ exists fl, default_filters e (requested_filters e) = Some fl /\ cs = expand_with e fl /\ closed cs = true.
+Proof. exact compile_inv. Qed.
+Print Assumptions C17_compile_accepts.
+
+(* ======================= Parts B and C: the expansion ====================================== *)
+(* Statements introduced by `Example` are SANITY LEMMAS (Part C): they read the model's own
+   builders back (proof by unfolding) and say nothing the definition does not; the clauses of
+   the property are Part A.  `Theorem`s below are substantive (Part B). *)
 
 (* 1. the exact component list: Keys, Data, Status, State, EventType, Event schemas; the
       query service with Get/List/Events and their request/response messages; every
       declared command service; the publish topic; one upsert topic per summary *)
-Theorem C17_components : forall e fl, map skel (expand_with e fl) = spec_skeleton e.
+Example C17_components : forall e fl, map skel (expand_with e fl) = spec_skeleton e.
 Proof. exact expand_skeleton. Qed.
 Print Assumptions C17_components.
 
@@ -69,14 +136,14 @@ Print Assumptions C17_closed_scalars.
 
 (* fields_ok: no user-declared field is both optional and required/primary (buildProperty);
    *_params_ok: every ":name" part of a method path is a request field (visitServiceMethodNode) *)
-Theorem C17_compile_is_expand : forall e,
+Example C17_compile_is_expand : forall e,
   (forall fl, user_refs_ok e (defined (expand_with e fl)) = true) ->
-  fields_ok e = true -> query_params_ok e = true -> command_params_ok e = true -> compile e = expand e.
+  fields_ok e = true -> query_params_ok e = true -> command_params_ok e = true -> convert e = expand e.
 Proof. exact compile_expand. Qed.
 Print Assumptions C17_compile_is_expand.
 
-Theorem C17_compile_errors : forall e cs, expand e = Ok cs ->
-  compile e = if user_refs_ok e (defined cs) then
+Example C17_compile_errors : forall e cs, expand e = Ok cs ->
+  convert e = if user_refs_ok e (defined cs) then
                 if fields_ok e then
                   if query_params_ok e && command_params_ok e then Ok cs
                   else Err "missing field in request"
@@ -95,13 +162,13 @@ Theorem C17_query_params_ok : forall e,
 Proof. exact query_params_always_ok. Qed.
 Print Assumptions C17_query_params_ok.
 
-Theorem C17_expand_total : forall e, is_panic (expand e) = false /\ expand e <> OutOfFuel.
+Example C17_expand_total : forall e, is_panic (expand e) = false /\ expand e <> OutOfFuel.
 Proof. exact expand_total. Qed.
 Print Assumptions C17_expand_total.
 
 (* 3. the same annotation everywhere: psm options and service options carry
       ToSnake(name), topics carry <package>.ToCamel(name) *)
-Theorem C17_same_annotation : forall e fl,
+Example C17_same_annotation : forall e fl,
   Forall (eq (snake_name e)) (psm_entities (expand_with e fl))
   /\ Forall (eq (snake_name e)) (service_entities (expand_with e fl))
   /\ Forall (eq (full_name e)) (topic_entities (expand_with e fl)).
@@ -109,14 +176,14 @@ Proof. exact same_annotation. Qed.
 Print Assumptions C17_same_annotation.
 
 (* 4. State and Event: metadata + flattened keys + data/status, or + the event oneof *)
-Theorem C17_main_file : forall e fl,
+Example C17_main_file : forall e fl,
   msgs_of_file 0 (expand_with e fl) =
     [keys_msg e; data_msg e; state_msg e fl; event_type_msg e; event_msg e]
     ++ flat_map schema_msgs (e_schemas e).
 Proof. exact main_file_messages. Qed.
 Print Assumptions C17_main_file.
 
-Theorem C17_state_event_shapes : forall e fl,
+Example C17_state_event_shapes : forall e fl,
   map shape (m_fields (state_msg e fl)) =
     [ (bs "metadata", TObject (bs "j5.state.v1") (bs "StateMetadata"), true, false);
       (bs "keys", TObject [] (m_name (keys_msg e)), true, true);
@@ -133,7 +200,7 @@ Print Assumptions C17_state_event_shapes.
 
 (* 5. the event oneof has exactly one option per declared event, in order, each pointing
       at the nested message of that event's name *)
-Theorem C17_event_oneof : forall e,
+Example C17_event_oneof : forall e,
   let m := event_type_msg e in
   m_oneof m = true
   /\ map fst (m_nested m) = map ev_name (e_events e)
@@ -145,26 +212,26 @@ Print Assumptions C17_event_oneof.
 
 (* 6. primary keys: required, in declaration order, and in that order among the path
       parameters of Get and Events (which are the primary and the shard keys) *)
-Theorem C17_keys_declaration_order : forall e,
+Example C17_keys_declaration_order : forall e,
   map f_json (m_fields (keys_msg e)) = map (fun k => uf_name (k_def k)) (e_keys e).
 Proof. exact keys_in_declaration_order. Qed.
 Print Assumptions C17_keys_declaration_order.
 
-Theorem C17_primary_keys_required : forall e f,
+Example C17_primary_keys_required : forall e f,
   In f (m_fields (keys_msg e)) -> f_primary f = true -> f_required f = true.
 Proof. exact primary_keys_required. Qed.
 Print Assumptions C17_primary_keys_required.
 
-Theorem C17_path_keys_primary : forall e, filter is_primary (get_keys e) = primary_keys e.
+Example C17_path_keys_primary : forall e, filter is_primary (get_keys e) = primary_keys e.
 Proof. exact get_keys_primary. Qed.
 Print Assumptions C17_path_keys_primary.
 
-Theorem C17_path_keys_no_shard : forall e,
+Example C17_path_keys_no_shard : forall e,
   (forall k, In k (e_keys e) -> k_shard k = false) -> get_keys e = primary_keys e.
 Proof. exact get_keys_no_shard. Qed.
 Print Assumptions C17_path_keys_no_shard.
 
-Theorem C17_query_service : forall e,
+Example C17_query_service : forall e,
   exists s, In (CSvc 1 s) (query_components e)
     /\ sv_name s = query_prefix e ++ bs "QueryService" /\ sv_ann s = SQuery (snake_name e)
     /\ map mt_name (sv_methods s) = [query_prefix e ++ bs "Get"; query_prefix e ++ bs "List"; query_prefix e ++ bs "Events"]
@@ -261,7 +328,7 @@ Print Assumptions C17_default_filters_are_statuses.
 (* the second observable: what the real j5client derives (one StateEntity) agrees with
    the descriptors: same entity name, State schema, primary keys in declaration order,
    one event per declared event, the command services, the query service and its paths *)
-Theorem C17_client_view : forall e fl,
+Example C17_client_view : forall e fl,
   let c := client_view e in
   ce_name c = snake_name e
   /\ ce_schema c = e_pkg e ++ [46] ++ m_name (state_msg e fl)
@@ -311,12 +378,12 @@ Print Assumptions C17_legacy_inference_refuted.
 
 (* several entity declarations in one file: the result is the concatenation of the single
    expansions (so every theorem above applies to each part) and is closed as a whole *)
-Theorem C17_file_is_concat : forall es cs, compile_all es = Ok cs ->
-  exists l, Forall2 (fun e c => compile e = Ok c) es l /\ cs = concat l.
+Theorem C17_file_is_concat : forall es cs, convert_all es = Ok cs ->
+  exists l, Forall2 (fun e c => convert e = Ok c) es l /\ cs = concat l.
 Proof. exact compile_all_inv. Qed.
 Print Assumptions C17_file_is_concat.
 
-Theorem C17_file_closed : forall es cs, compile_all es = Ok cs -> closed cs = true.
+Theorem C17_file_closed : forall es cs, convert_all es = Ok cs -> closed cs = true.
 Proof. exact compile_all_closed. Qed.
 Print Assumptions C17_file_closed.
 
@@ -390,9 +457,11 @@ Definition C17_sample : entity :=
        SOneof (bs "Choice") [mkU (bs "a") (KScalar 9 (bs "string")) false false]].
 
 Example C17_example :
-  (exists cs, compile C17_sample = Ok cs /\ length cs = 24%nat)
+  in_quantifier C17_sample = true /\ reserved_free C17_sample = true
+  /\ (exists cs, compile C17_sample = Ok cs /\ length cs = 24%nat)
   /\ nth 0 (query_paths C17_sample) [] = bs "/foo/v1/foo_s/q/{foo_id}/{account_id}"
   /\ nth 2 (query_paths C17_sample) [] = bs "/foo/v1/foo_s/q/{foo_id}/{account_id}/events"
+  /\ path_key_names C17_sample = [bs "foo_id"; bs "account_id"]
   /\ status_values (status_prefix C17_sample) (e_status C17_sample)
      = [(bs "FOO_S_STATUS_UNSPECIFIED", 0); (bs "FOO_S_STATUS_ACTIVE", 1); (bs "FOO_S_STATUS_INACTIVE", 2)]
   /\ Forall (fun k => no_slash (uf_name (k_def k)) = true) (e_keys C17_sample)
@@ -400,6 +469,7 @@ Example C17_example :
   /\ path_params (query_base C17_sample) = [] /\ command_params_ok C17_sample = true
   /\ clean_path (query_base C17_sample) = query_base C17_sample.
 Proof.
+  split; [vm_compute; reflexivity|]. split; [vm_compute; reflexivity|].
   split; [eexists; split; [vm_compute; reflexivity|reflexivity]|].
   repeat split; try (vm_compute; reflexivity). repeat constructor.
 Qed.
